@@ -412,6 +412,13 @@ where
                 tlog!("visit - {}", x.val());
                 x.forget();
                 closure_panic(&mut count, *p);
+                if *p == Some(crate::case::CLOSURE_PULLS) {
+                    // the user's function works on a second element it pulls itself
+                    if let Some(y) = it.next() {
+                        tlog!("visit - {}", y.val());
+                        y.forget();
+                    }
+                }
             });
             untracked(|| "ret done".to_string())
         }
@@ -421,6 +428,12 @@ where
                 tlog!("visit {} {}", i, x.val());
                 x.forget();
                 closure_panic(&mut count, *p);
+                if *p == Some(crate::case::CLOSURE_PULLS) {
+                    if let Some(y) = it.next_id_and_value() {
+                        tlog!("visit {} {}", y.idx, y.value.val());
+                        y.value.forget();
+                    }
+                }
             });
             untracked(|| "ret done".to_string())
         }
